@@ -14,7 +14,7 @@ THEOREMS = ["C06_partial", "C06_refuted_rename", "C06_refuted_rename_across_stat
             "C06_private_never_imported", "C06_spec_private_never_accessible", "C06_fuel_enough",
             "C06_example_hypotheses"]
 REGION_KEYS = {1: "rename-without-only", 2: "private-import-reexported", 4: "only-empty-imports-all",
-               8: "only-duplicate-remote", 16: "use-in-interface-body-not-a-dependency"}
+               8: "only-duplicate-remote", 16: "use-in-abstract-interface-body-ignored"}
 
 
 # ----------------------------------------------------------------------------- fixed cases
